@@ -239,7 +239,10 @@ CHECKS = {'C01': {'level': 'exploration',
                  'transaction); Log.Range(prefix) delivers a prefix of the appended commits, each op-for-op equal, then nil or an error. Panic, hang '
                  'or any other state = violation. The complete file must restore to the state at recorder close. non-trivial = the prefix ends '
                  'inside the log tail or inside the state section and the call returned nil (snapshots) / nil after a strict non-empty prefix of the '
-                 'commits (logs); distinct = (file, offset)',
+                 'commits (logs); distinct = (file, offset) | parallel part (TestC13Parallel): snapshots taken while 2..6 writer goroutines commit '
+                 'a=v,b=-v,c=v on rows of 1..2 blocks with real parallelism; the complete file, the state section alone and prefixes ending at frame '
+                 'boundaries inside the log tail are restored: whenever Restore returns nil EVERY row must satisfy a+b==0, c==a (a state containing '
+                 'part of a commit does not)',
          'assumptions': ['a crash leaves a prefix of the byte stream (no torn or reordered sectors)',
                          'which files are generated is random (rapid); offsets per file are enumerated as stated (coverage.exhaustive is true only '
                          'in the thorough tier)'],
@@ -250,6 +253,10 @@ CHECKS = {'C01': {'level': 'exploration',
                    {'run': '^TestC13Log$',
                     'checks': {'quick': 300, 'thorough': 600},
                     'shards': {'quick': 1, 'thorough': 4},
+                    'timeout': {'quick': 900, 'thorough': 3400}},
+                   {'run': '^TestC13Parallel$',
+                    'checks': {'quick': 25, 'thorough': 400},
+                    'shards': {'quick': 1, 'thorough': 2},
                     'timeout': {'quick': 900, 'thorough': 3400}}]},
  'C14': {'level': 'fault_enumeration',
          'rule': 'per generated collection (empty, <=120 rows, one block + 6 rows, 33000 rows thinned by a patterned delete; keyed or not; with or '
